@@ -10,6 +10,7 @@ import sys, os, subprocess, json, re, time
 V = os.path.dirname(os.path.dirname(os.path.abspath(__file__)))
 WT = '/tmp/wt-mut'
 CORE = 'cedar-policy-core/src/'
+FFI = 'cedar-policy/src/ffi/'
 M = [
  # id, property, file, old, new
  ('C11-m1', 'C11', CORE + 'validator/coreschema.rs', 'if !self.is_applicable_resource_type(resource_type) {', 'if false {'),
@@ -32,6 +33,19 @@ M = [
  ('C15-m2', 'C15', CORE + 'batched_evaluator.rs', '    for _i in 0..max_iters {', '    for _i in 0..=max_iters {'),
  ('C15-m3', 'C15', CORE + 'batched_evaluator.rs', '                None => {\n                    entities.add_entity_trusted(', '                None if false => {\n                    entities.add_entity_trusted('),
  ('C16-m1', 'C16', CORE + 'validator/level_validate.rs', None, None),
+ ('C19-m1', 'C19', FFI + 'is_authorized.rs', '            reason.collect(),\n            errors.map(Into::into).collect(),', '            reason.take(1).collect(),\n            errors.map(Into::into).collect(),'),
+ ('C19-m2', 'C19', FFI + 'is_authorized.rs', 'cache.borrow_mut().insert(pset_id, parsed_policies);', 'cache.borrow_mut().entry(pset_id).or_insert(parsed_policies);'),
+ ('C19-m3', 'C19', FFI + 'is_authorized.rs', 'cache.borrow_mut().insert(schema_name, parsed_schema);', 'cache.borrow_mut().insert(schema_name.trim().to_string(), parsed_schema);'),
+ ('C19-m4', 'C19', FFI + 'utils.rs', '.map(|(id, policy)| policy.parse(Some(id)))', '.map(|(_id, policy)| policy.parse(None))'),
+ ('C19-m5', 'C19', FFI + 'utils.rs', '(Some(s), Some(a)) => Some((s, a)),', '(Some(_), Some(_)) => None,'),
+ ('C19-m6', 'C19', FFI + 'utils.rs', 'self.template_links.into_iter().for_each(|link| {', 'self.template_links.into_iter().skip(1).for_each(|link| {'),
+ ('C19-m7', 'C19', FFI + 'is_authorized.rs', '.with(|cache| cache.borrow().get(&schema_name).cloned())', '.with(|cache| cache.borrow().get(&schema_name).cloned().or_else(|| cache.borrow().values().next().cloned()))'),
+ ('C19-m8', 'C19', FFI + 'validate.rs', '                    policy_id: error.policy_id().clone(),\n                    error: miette::Report::new(error).into(),\n                })\n                .collect();\n            let validation_warnings', '                    policy_id: error.policy_id().clone(),\n                    error: miette::Report::new(error).into(),\n                })\n                .skip(1)\n                .collect();\n            let validation_warnings'),
+ ('C19-m9', 'C19', FFI + 'convert.rs', '    match template.parse(None) {\n        Ok(template) => match template.to_json() {', '    match template.parse(Some(crate::PolicyId::new("t"))) {\n        Ok(template) => match template.to_json() {'),   # keeps the property (the id is not part of the JSON form): must NOT be reported
+ ('C19-m13', 'C19', FFI + 'convert.rs', '        Ok(policy) => PolicyToTextAnswer::Success {\n            text: policy.to_string(),', '        Ok(policy) => PolicyToTextAnswer::Success {\n            text: policy.to_string().replace(" when {\\n  true\\n}", ""),'),
+ ('C19-m10', 'C19', FFI + 'check_parse.rs', '    call.entities.parse(schema.as_ref()).into()', '    call.entities.parse(None).into()'),
+ ('C19-m11', 'C19', FFI + 'format.rs', '        indent_width: call.indent_width,', '        indent_width: call.line_width as isize,'),
+ ('C19-m12', 'C19', FFI + 'check_parse.rs', '            if let Err(err) = context.validate(schema_ref, action_ref) {', '            if let Err(err) = context.validate(schema_ref, action_ref).and(Ok::<(), crate::RequestValidationError>(())).or(Ok::<(), crate::RequestValidationError>(())) {'),
 ]
 
 
